@@ -447,6 +447,51 @@ func runC14(c *Check) {
 		if n6 < 6 {
 			c.Unk("C14-R6", "getters", "", "", fmt.Sprintf("anchor lost: %d getter results checked", n6))
 		}
+		// what a getter hands out is the caller's own copy: a pointer result is never an object
+		// the store keeps (a field of the store): a caller that edits its copy in memory (the
+		// producer signs the pending header it loaded) would change what later reads return
+		// although nothing was written
+		for _, fn := range p.Funcs {
+			pk := fnPkg(fn)
+			if pk == nil || pk.Pkg.Path() != storePkg || fn.Parent() != nil || fn.Signature.Recv() == nil || !strings.HasSuffix(fn.Signature.Recv().Type().String(), "DefaultStore") {
+				continue
+			}
+			res := fn.Signature.Results()
+			for i := 0; i < res.Len(); i++ {
+				if _, isPtr := res.At(i).Type().Underlying().(*types.Pointer); !isPtr {
+					continue
+				}
+				shared := ""
+				for _, b := range fn.Blocks {
+					ret, ok := b.Instrs[len(b.Instrs)-1].(*ssa.Return)
+					if !ok || i >= len(ret.Results) {
+						continue
+					}
+					for _, alt := range p.Alternatives(TermOf(spilledResult(ret, i), &Ctx{Fn: fn}), 2) {
+						a := alt.unconv()
+						if a.Op == "field" && len(a.Args) == 1 && a.Args[0].Op == "param" {
+							shared = a.String()
+						}
+						// … or kept behind an atomic holder / a map of the store
+						if (a.Op == "call" || a.Op == "invoke") && (strings.HasPrefix(a.Name, "(*sync/atomic.") || strings.HasPrefix(a.Name, "(*sync.Map)")) && len(a.Args) > 0 {
+							h := a.Args[0].unconv()
+							if h.Op == "field" && len(h.Args) == 1 && h.Args[0].Op == "param" {
+								shared = a.String()
+							}
+						}
+						if a.Op == "lookup" && len(a.Args) > 0 && a.Args[0].unconv().Op == "field" {
+							shared = a.String()
+						}
+					}
+				}
+				inst := fnShort(fn) + " ⟂ result " + fmt.Sprint(i) + " is the caller's own copy"
+				if shared == "" {
+					c.OK("C14-R6", inst, fnName(fn), p.Pos(fn.Pos()), "the pointer handed out is not an object the store keeps", true)
+				} else {
+					c.Bad("C14-R6", inst, fnName(fn), p.Pos(fn.Pos()), "the getter can hand out "+shared+", an object the store itself keeps: an in-memory edit by one caller changes what every later read of that record returns although nothing was written", nil)
+				}
+			}
+		}
 	}
 
 	// ---- R4
